@@ -23,7 +23,7 @@ RULE = ("a case is (version, all_metrics, answer script); distinct = distinct sc
         "another metric, padded answers, repeated invalid answers, truncation at every index (premature EOF).")
 
 
-def check_dialogue(P, vtag, all_metrics, answers, target=None, version_arg=None):
+def check_dialogue(P, vtag, all_metrics, answers, target=None, version_arg=None, sessions_before=None):
     P.evaluations += 1
     ver = DLG.VER_OF[vtag]
     prefix = DLG.PREFIX_OF[vtag]
@@ -32,6 +32,11 @@ def check_dialogue(P, vtag, all_metrics, answers, target=None, version_arg=None)
     if target:
         case["target"] = list(target)
     tk = ":target-%s" % target[0] if target else ""
+    if DLG.MODES:
+        case["modes_before"] = [list(x) for x in DLG.MODES]  # every mode run earlier in this process
+    sessions_before = [list(x) for x in DLG.RECENT]
+    if sessions_before:
+        case["sessions_before"] = sessions_before  # earlier sessions in the same process (history witness)
     if version_arg is not None:
         case["version_arg"] = repr(version_arg)
         P.stratum("version-argument:%r" % (version_arg,))
@@ -129,6 +134,11 @@ def check_dialogue(P, vtag, all_metrics, answers, target=None, version_arg=None)
 
 
 def check_case(P, case):
+    DLG.question_order(case["version"], case["all_metrics"])  # order witness from the still pristine process
+    for vt, am in case.get("modes_before") or []:  # one complete session per earlier mode
+        DLG.run_dialogue(vt, am, probe_answers(vt), limit=100000)
+    for vt, am, ans in case.get("sessions_before") or []:
+        DLG.run_dialogue(vt, am, ans)
     va = case.get("version_arg")
     check_dialogue(P, case["version"], case["all_metrics"], case["answers"], tuple(case["target"]) if case.get("target") else None,
                    version_arg=(float(va) if "." in va else int(va)) if va else None)
